@@ -126,6 +126,13 @@ type graphMemoizer struct {
 	memO map[string][]*triple.Object
 	memT map[string][]*triple.Triple
 	memE map[string]bool
+
+	// gen counts the resets of the memoization and updating the updates in
+	// progress (both guarded by mu). A lookup only memoizes its results if no
+	// reset happened since it started and no update is running: the results
+	// may predate the update.
+	gen      uint64
+	updating int
 }
 
 // ID returns the id for this graph.
@@ -136,31 +143,35 @@ func (g *graphMemoizer) ID(ctx context.Context) string {
 // AddTriples adds the triples to the storage. Adding a triple that already
 // exists should not fail.
 func (g *graphMemoizer) AddTriples(ctx context.Context, ts []*triple.Triple) error {
-	g.mu.Lock()
-	// Update operations reset the memoization.
-	g.memN = make(map[string][]*node.Node)
-	g.memP = make(map[string][]*predicate.Predicate)
-	g.memO = make(map[string][]*triple.Object)
-	g.memT = make(map[string][]*triple.Triple)
-	g.memE = make(map[string]bool)
-	g.mu.Unlock()
-
+	// Update operations reset the memoization, before the update and again
+	// once it is done; nothing is memoized in between.
+	g.reset(1)
+	defer g.reset(-1)
 	return g.g.AddTriples(ctx, ts)
 }
 
 // RemoveTriples removes the triples from the storage. Removing triples that
 // are not present on the store should not fail.
 func (g *graphMemoizer) RemoveTriples(ctx context.Context, ts []*triple.Triple) error {
+	// Update operations reset the memoization, before the update and again
+	// once it is done; nothing is memoized in between.
+	g.reset(1)
+	defer g.reset(-1)
+	return g.g.RemoveTriples(ctx, ts)
+}
+
+// reset clears the memoized results; updates is +1 when an update starts and
+// -1 when it is done.
+func (g *graphMemoizer) reset(updates int) {
 	g.mu.Lock()
-	// Update operations reset the memoization.
+	g.gen++
+	g.updating += updates
 	g.memN = make(map[string][]*node.Node)
 	g.memP = make(map[string][]*predicate.Predicate)
 	g.memO = make(map[string][]*triple.Object)
 	g.memT = make(map[string][]*triple.Triple)
 	g.memE = make(map[string]bool)
 	g.mu.Unlock()
-
-	return g.g.RemoveTriples(ctx, ts)
 }
 
 func combinedUUID(op string, lo *storage.LookupOptions, uuids ...uuid.UUID) string {
@@ -193,6 +204,7 @@ func (g *graphMemoizer) Objects(ctx context.Context, s *node.Node, p *predicate.
 	k := combinedUUID("Objects", lo, s.UUID(), p.UUID())
 	g.mu.RLock()
 	v := g.memO[k]
+	gen := g.gen
 	g.mu.RUnlock()
 	if v != nil {
 		// Return the memoized results.
@@ -242,7 +254,9 @@ func (g *graphMemoizer) Objects(ctx context.Context, s *node.Node, p *predicate.
 		return err
 	}
 	g.mu.Lock()
-	g.memO[k] = mobjs
+	if gen == g.gen && g.updating == 0 {
+		g.memO[k] = mobjs
+	}
 	g.mu.Unlock()
 	return err
 }
@@ -270,6 +284,7 @@ func (g *graphMemoizer) Subjects(ctx context.Context, p *predicate.Predicate, o 
 	k := combinedUUID("Subjects", lo, p.UUID(), o.UUID())
 	g.mu.RLock()
 	v := g.memN[k]
+	gen := g.gen
 	g.mu.RUnlock()
 	if v != nil {
 		// Return the memoized results.
@@ -319,7 +334,9 @@ func (g *graphMemoizer) Subjects(ctx context.Context, p *predicate.Predicate, o 
 		return err
 	}
 	g.mu.Lock()
-	g.memN[k] = msubs
+	if gen == g.gen && g.updating == 0 {
+		g.memN[k] = msubs
+	}
 	g.mu.Unlock()
 	return err
 }
@@ -337,6 +354,7 @@ func (g *graphMemoizer) PredicatesForSubject(ctx context.Context, s *node.Node, 
 	k := combinedUUID("PredicatesForSubject", lo, s.UUID())
 	g.mu.RLock()
 	v := g.memP[k]
+	gen := g.gen
 	g.mu.RUnlock()
 	if v != nil {
 		// Return the memoized results.
@@ -386,7 +404,9 @@ func (g *graphMemoizer) PredicatesForSubject(ctx context.Context, s *node.Node, 
 		return err
 	}
 	g.mu.Lock()
-	g.memP[k] = mpreds
+	if gen == g.gen && g.updating == 0 {
+		g.memP[k] = mpreds
+	}
 	g.mu.Unlock()
 	return err
 }
@@ -404,6 +424,7 @@ func (g *graphMemoizer) PredicatesForObject(ctx context.Context, o *triple.Objec
 	k := combinedUUID("PredicatesForObject", lo, o.UUID())
 	g.mu.RLock()
 	v := g.memP[k]
+	gen := g.gen
 	g.mu.RUnlock()
 	if v != nil {
 		// Return the memoized results.
@@ -453,7 +474,9 @@ func (g *graphMemoizer) PredicatesForObject(ctx context.Context, o *triple.Objec
 		return err
 	}
 	g.mu.Lock()
-	g.memP[k] = mpreds
+	if gen == g.gen && g.updating == 0 {
+		g.memP[k] = mpreds
+	}
 	g.mu.Unlock()
 	return err
 }
@@ -471,6 +494,7 @@ func (g *graphMemoizer) PredicatesForSubjectAndObject(ctx context.Context, s *no
 	k := combinedUUID("PredicatesForSubjectAndObject", lo, s.UUID(), o.UUID())
 	g.mu.RLock()
 	v := g.memP[k]
+	gen := g.gen
 	g.mu.RUnlock()
 	if v != nil {
 		// Return the memoized results.
@@ -520,7 +544,9 @@ func (g *graphMemoizer) PredicatesForSubjectAndObject(ctx context.Context, s *no
 		return err
 	}
 	g.mu.Lock()
-	g.memP[k] = mpreds
+	if gen == g.gen && g.updating == 0 {
+		g.memP[k] = mpreds
+	}
 	g.mu.Unlock()
 	return err
 }
@@ -538,6 +564,7 @@ func (g *graphMemoizer) TriplesForSubject(ctx context.Context, s *node.Node, lo 
 	k := combinedUUID("TriplesForSubject", lo, s.UUID())
 	g.mu.RLock()
 	v := g.memT[k]
+	gen := g.gen
 	g.mu.RUnlock()
 	if v != nil {
 		// Return the memoized results.
@@ -587,7 +614,9 @@ func (g *graphMemoizer) TriplesForSubject(ctx context.Context, s *node.Node, lo 
 		return err
 	}
 	g.mu.Lock()
-	g.memT[k] = mts
+	if gen == g.gen && g.updating == 0 {
+		g.memT[k] = mts
+	}
 	g.mu.Unlock()
 	return err
 }
@@ -605,6 +634,7 @@ func (g *graphMemoizer) TriplesForPredicate(ctx context.Context, p *predicate.Pr
 	k := combinedUUID("TriplesForPredicate", lo, p.UUID())
 	g.mu.RLock()
 	v := g.memT[k]
+	gen := g.gen
 	g.mu.RUnlock()
 	if v != nil {
 		// Return the memoized results.
@@ -654,7 +684,9 @@ func (g *graphMemoizer) TriplesForPredicate(ctx context.Context, p *predicate.Pr
 		return err
 	}
 	g.mu.Lock()
-	g.memT[k] = mts
+	if gen == g.gen && g.updating == 0 {
+		g.memT[k] = mts
+	}
 	g.mu.Unlock()
 	return err
 }
@@ -672,6 +704,7 @@ func (g *graphMemoizer) TriplesForObject(ctx context.Context, o *triple.Object, 
 	k := combinedUUID("TriplesForObject", lo, o.UUID())
 	g.mu.RLock()
 	v := g.memT[k]
+	gen := g.gen
 	g.mu.RUnlock()
 	if v != nil {
 		// Return the memoized results.
@@ -721,7 +754,9 @@ func (g *graphMemoizer) TriplesForObject(ctx context.Context, o *triple.Object, 
 		return err
 	}
 	g.mu.Lock()
-	g.memT[k] = mts
+	if gen == g.gen && g.updating == 0 {
+		g.memT[k] = mts
+	}
 	g.mu.Unlock()
 	return err
 }
@@ -739,6 +774,7 @@ func (g *graphMemoizer) TriplesForSubjectAndPredicate(ctx context.Context, s *no
 	k := combinedUUID("TriplesForSubjectAndPredicate", lo, s.UUID(), p.UUID())
 	g.mu.RLock()
 	v := g.memT[k]
+	gen := g.gen
 	g.mu.RUnlock()
 	if v != nil {
 		// Return the memoized results.
@@ -788,7 +824,9 @@ func (g *graphMemoizer) TriplesForSubjectAndPredicate(ctx context.Context, s *no
 		return err
 	}
 	g.mu.Lock()
-	g.memT[k] = mts
+	if gen == g.gen && g.updating == 0 {
+		g.memT[k] = mts
+	}
 	g.mu.Unlock()
 	return err
 }
@@ -806,6 +844,7 @@ func (g *graphMemoizer) TriplesForPredicateAndObject(ctx context.Context, p *pre
 	k := combinedUUID("TriplesForPredicateAndObject", lo, p.UUID(), o.UUID())
 	g.mu.RLock()
 	v := g.memT[k]
+	gen := g.gen
 	g.mu.RUnlock()
 	if v != nil {
 		// Return the memoized results.
@@ -855,7 +894,9 @@ func (g *graphMemoizer) TriplesForPredicateAndObject(ctx context.Context, p *pre
 		return err
 	}
 	g.mu.Lock()
-	g.memT[k] = mts
+	if gen == g.gen && g.updating == 0 {
+		g.memT[k] = mts
+	}
 	g.mu.Unlock()
 	return err
 }
@@ -865,6 +906,7 @@ func (g *graphMemoizer) Exist(ctx context.Context, t *triple.Triple) (bool, erro
 	k := combinedUUID("Exist", storage.DefaultLookup, t.UUID())
 	g.mu.RLock()
 	v, ok := g.memE[k]
+	gen := g.gen
 	g.mu.RUnlock()
 	if ok {
 		// Return the memoized results.
@@ -875,7 +917,9 @@ func (g *graphMemoizer) Exist(ctx context.Context, t *triple.Triple) (bool, erro
 	b, err := g.g.Exist(ctx, t)
 	if err == nil {
 		g.mu.Lock()
-		g.memE[k] = b
+		if gen == g.gen && g.updating == 0 {
+			g.memE[k] = b
+		}
 		g.mu.Unlock()
 	}
 	return b, err
@@ -888,6 +932,7 @@ func (g *graphMemoizer) Triples(ctx context.Context, lo *storage.LookupOptions, 
 	k := combinedUUID("Triples", lo)
 	g.mu.RLock()
 	v := g.memT[k]
+	gen := g.gen
 	g.mu.RUnlock()
 	if v != nil {
 		// Return the memoized results.
@@ -937,7 +982,9 @@ func (g *graphMemoizer) Triples(ctx context.Context, lo *storage.LookupOptions, 
 		return err
 	}
 	g.mu.Lock()
-	g.memT[k] = mts
+	if gen == g.gen && g.updating == 0 {
+		g.memT[k] = mts
+	}
 	g.mu.Unlock()
 	return err
 }
